@@ -530,7 +530,7 @@ func (e *Engine) verifyLemma(name string) *FuncResult {
 	res.Obls = r.obls
 	for _, o := range res.Obls {
 		o.Script = r.ctx.query([]string{o.Guard, not(o.Goal)}, nil)
-		o.Alt = r.ctx.queryMode([]string{o.Guard, not(o.Goal)}, nil, 1)
+		o.Alt = r.ctx.queryMode([]string{o.Guard, not(o.Goal)}, nil, 5)
 	}
 	return res
 }
